@@ -355,6 +355,16 @@ impl<LhsT: GemmInT, RhsT: GemmInT, OutT: GemmOutT> GemmExecutor<LhsT, RhsT, OutT
                 // Skip parallel iteration for batch size of 1
                 self.gemm_uninit(out_data, *a, *b, opts)
             }
+            (a, b) if out_mat_stride == 0 => {
+                // Every output matrix is empty, so the output cannot be split
+                // into non-empty chunks. Still validate each pair of inputs.
+                for (a_mat, b_mat) in a.iter().zip(b) {
+                    self.gemm_uninit(&mut [], *a_mat, *b_mat, opts.clone())?;
+                }
+
+                // Safety: Output is empty and thus already initialized.
+                Ok(unsafe { out_data.assume_init() })
+            }
             (a, b) => {
                 a.par_iter()
                     .zip(b)
